@@ -56,6 +56,12 @@ theorem matrix_reuse_transparent (c : List (Key × ℚ)) (hc : RCacheOK c) (stri
     (buildRDWreuse c stripes lam).1 = buildRDW stripes lam ∧ RCacheOK (buildRDWreuse c stripes lam).2 :=
   buildRDWreuse_transparent c hc stripes hv lam
 
+example : (buildRDWreuse [] [[0, 1/4, 1/2, 1], [0, 1/2, 3/4, 7/8, 1]] (1/8)).1 = buildRDW [[0, 1/4, 1/2, 1], [0, 1/2, 3/4, 7/8, 1]] (1/8) :=
+  (matrix_reuse_transparent [] (tableOK_nil _ _ _) _ (by
+    intro s hs
+    simp only [List.mem_cons, List.not_mem_nil, or_false] at hs
+    rcases hs with rfl | rfl <;> (unfold UnitStripe; decide +kernel)) (1/8)).1
+
 /-- **for every refinement history** (any sequence of component grids, `post_processing` anywhere in between, any data)
     the system matrices with reuse switched on equal those with reuse switched off -/
 theorem matrices_equal_for_every_history (lam : ℚ) (data : List (List ℚ)) (sg : List ℚ) (sidx : List (List ℕ))
